@@ -276,6 +276,24 @@ class C19(Check):
                     alt.append(('inv-flag-numpy-bool', lambda: sa.distance_to(ab, box_vects=inv_box.copy(), inv=np.bool_(True)), res['inv'][0]))
                     alt.append(('inv-flag-one', lambda: sa.distance_to(ab, box_vects=inv_box.copy(), inv=1), res['inv'][0]))
                     alt.append(('inv-flag-zero', lambda: sa.distance_to(ab, box_vects=box.copy(), inv=0), res['box'][0]))
+                    alt.append(('box-and-flag-positional', lambda: sa.distance_to(ab, inv_box.copy(), True), res['inv'][0]))
+                    # ONE box array object re-used by the caller: filled with another box (10 % larger) in place, then
+                    # with this box again
+                    buf = box * 1.1
+                    big = float(sa.distance_to(ab, box_vects=(box * 1.1).copy()))
+                    alt.append(('box-buffer-first-use', lambda: sa.distance_to(ab, box_vects=buf), big))
+
+                    def refill():
+                        buf[:] = box
+                        return sa.distance_to(ab, box_vects=buf)
+                    alt.append(('box-buffer-refilled-in-place', refill, res['box'][0]))
+                    ibuf = np.linalg.inv(box * 1.1)
+                    alt.append(('inverse-buffer-first-use', lambda: sa.distance_to(ab, box_vects=ibuf, inv=True), big))
+
+                    def irefill():
+                        ibuf[:] = inv_box
+                        return sa.distance_to(ab, box_vects=ibuf, inv=True)
+                    alt.append(('inverse-buffer-refilled-in-place', irefill, res['inv'][0]))
                     for kind, fn, want in alt:
                         try:
                             v = float(fn())
@@ -286,6 +304,22 @@ class C19(Check):
                         if not abs(v - want) <= TOL:
                             R.violation(f'distance_to/{bname}/same-arguments-in-another-form-differ', d,
                                         f'{kind}: {v!r} vs {want!r}')
+                    # a residue whose atoms were created from WHOLE-NUMBER coordinates (integer-typed arrays), then
+                    # moved by the lattice vector with Residue.move: same periodic distance as before the move
+                    try:
+                        from gaddlemaps.components import AtomGro, Residue
+                        ci = [int(round(x)) for x in a]
+                        ri = Residue([AtomGro([7, 'RES', 'A1', 1, ci[0], ci[1], ci[2]])])
+                        d0 = float(ri.distance_to(ab, box_vects=box.copy()))
+                        ri.move(np.array([2.0, -1.0, 3.0]) @ box)
+                        d1 = float(ri.distance_to(ab, box_vects=box.copy()))
+                    except Exception as exc:
+                        R.violation(f'distance_to/{bname}/exception', d, f'integer-typed residue moved by a lattice vector: {exc!r}')
+                    else:
+                        R.case(dict(d, argform='integer-typed-residue-moved'), nontrivial=True, cls=cls + '/argument-forms')
+                        if not abs(d1 - d0) <= TOL:
+                            R.violation(f'distance_to/{bname}/changes-under-lattice-shift', d,
+                                        f'residue built from whole-number coordinates, moved by (2,-1,3) boxes: {d0!r} -> {d1!r}')
                     if ka != 'pt' or True:
                         # a residue that has answered a query is then moved by assigning its atoms' positions one by one
                         w = np.array([0.3, -0.2, 0.1])
